@@ -618,4 +618,155 @@ theorem splitTail_J (st : St) (v sc lb : Nat)
     obtain ⟨_, hinv⟩ := afterSplit_J q.1.incSplitBetween v q.2.1 q.2.2 hH' hv' hne
     exact Or.inr hinv
 
+/-- what the path search of `splitBetween` delivers (when it did not run out of fuel) -/
+structure SearchSpec (st : St) (v : Nat) (path : Option (Array Nat)) : Prop where
+  found : ∀ cs, path = some cs → PathSpec st (st.cons[v]!).r (st.cons[v]!).l none cs
+  notfound : path = none → ∀ W : List Step,
+    Walk st.cons (st.cons[v]!).l (st.cons[v]!).r W → NB none W → W = []
+
+theorem SearchSpec.congr {st st' : St} (hc : st'.cons = st.cons) {v : Nat} {path : Option (Array Nat)}
+    (h : SearchSpec st v path) : SearchSpec st' v path := by
+  obtain ⟨h1, h2⟩ := h
+  refine ⟨?_, ?_⟩
+  · intro cs hcs
+    have := h1 cs hcs
+    unfold PathSpec at this ⊢
+    rw [hc]; exact this
+  · intro hn
+    rw [hc]; exact h2 hn
+
+theorem search_aux (st st1 : St) (hv : st1.vars = st.vars) (hc : st1.cons = st.cons) {n : Nat}
+    {ia : Array Nat} (h : InvC st.vars st.cons n ia) (v fuel : Nat)
+    (hp2 : (splitPath st1 (blk st.vars (st.cons[v]!).l) (st.cons[v]!).r fuel (st.cons[v]!).l none).2 = true) :
+    SearchSpec st v (splitPath st1 (blk st.vars (st.cons[v]!).l) (st.cons[v]!).r fuel (st.cons[v]!).l none).1 := by
+  have h1 : InvC st1.vars st1.cons n ia := by rw [hv, hc]; exact h
+  refine ⟨?_, ?_⟩
+  · intro cs hcs
+    have := splitPath_some st1 _ _ h1.ins_sound h1.outs_sound
+      (fun j x hae => forest_of_inv h1 j x x hae ReflTransGen.refl) _ _ _ _ hcs
+    unfold PathSpec at this ⊢
+    rw [hc] at this; exact this
+  · intro hnone W hW hnb
+    have := splitPath_none st1 (blk st.vars (st.cons[v]!).l) (st.cons[v]!).r
+      h1.outs_complete h1.ins_complete (fun j x y hae => h1.ae_blk hae)
+      fuel (st.cons[v]!).l none (by rw [hv]) (Prod.ext hnone hp2) W (by rw [hc]; exact hW) hnb
+    exact this
+
+theorem searchSplit_spec (st : St) (v : Nat) {n : Nat} {ia : Array Nat}
+    (h : InvC st.vars st.cons n ia) :
+    (st.searchSplit v).1.vars = st.vars ∧ (st.searchSplit v).1.cons = st.cons ∧
+    (st.searchSplit v).1.blocks = st.blocks ∧ (st.searchSplit v).1.inactive = st.inactive ∧
+    ((st.searchSplit v).1.fuelOut = true ∨
+      (st.fuelOut = false ∧ SearchSpec st v (st.searchSplit v).2)) := by
+  unfold St.searchSplit
+  simp only
+  refine ⟨rfl, rfl, rfl, rfl, ?_⟩
+  have hfu : ((st.setLm (computeDfdv st (st.vars[(st.cons[v]!).l]!).block (st.vars.size + 1) st.lm #[]
+      (st.blocks[(st.vars[(st.cons[v]!).l]!).block]!).vars[0]! none).1).okAnd
+      (computeDfdv st (st.vars[(st.cons[v]!).l]!).block (st.vars.size + 1) st.lm #[]
+      (st.blocks[(st.vars[(st.cons[v]!).l]!).block]!).vars[0]! none).2.2.2).fuelOut = false →
+      st.fuelOut = false := by
+    intro hh
+    simp only [St.okAnd, St.setLm, Bool.or_eq_false_iff] at hh
+    exact hh.1
+  generalize hst1 : ((st.setLm (computeDfdv st (st.vars[(st.cons[v]!).l]!).block (st.vars.size + 1) st.lm #[]
+      (st.blocks[(st.vars[(st.cons[v]!).l]!).block]!).vars[0]! none).1).okAnd
+      (computeDfdv st (st.vars[(st.cons[v]!).l]!).block (st.vars.size + 1) st.lm #[]
+      (st.blocks[(st.vars[(st.cons[v]!).l]!).block]!).vars[0]! none).2.2.2) = st1 at hfu ⊢
+  have hv1 : st1.vars = st.vars := by rw [← hst1]; simp only [St.okAnd, St.setLm]
+  have hc1 : st1.cons = st.cons := by rw [← hst1]; simp only [St.okAnd, St.setLm]
+  by_cases hf : (st1.okAnd (splitPath st1 (st.vars[(st.cons[v]!).l]!).block (st.cons[v]!).r
+      (st.vars.size + 1) (st.cons[v]!).l none).2).fuelOut = true
+  · exact Or.inl hf
+  · right
+    simp only [St.okAnd, Bool.or_eq_true, Bool.not_eq_true', not_or, Bool.not_eq_true,
+      Bool.not_eq_false] at hf
+    exact ⟨hfu hf.1, search_aux st st1 hv1 hc1 h v _ hf.2⟩
+
+theorem walk_nil_eq {cons : Array Con} {x y : Nat} (h : Walk cons x y []) : x = y := by
+  generalize hw : ([] : List Step) = W at h
+  cases h with
+  | nil => rfl
+  | cons _ _ => simp at hw
+
+theorem splitBetweenWith_J (st : St) (v : Nat) (path : Option (Array Nat))
+    (hH : InvC st.vars st.cons st.blocks.size (st.inactive.push v)) (hv : v < st.cons.size)
+    (hsame : blk st.vars (st.cons[v]!).l = blk st.vars (st.cons[v]!).r)
+    (hlr : (st.cons[v]!).l ≠ (st.cons[v]!).r)
+    (hsp : SearchSpec st v path)
+    (hviol : (∀ j : Nat, j < st.cons.size → (st.cons[j]!).eq = false) →
+      ∃ s, st.slack v = some s ∧ s < 0) :
+    J (st.splitBetweenWith v path) := by
+  have hforest := forest_of_inv hH
+  unfold St.splitBetweenWith
+  simp only
+  split
+  · -- no split point: flag
+    rename_i hn
+    have hempty := argMinFirst_none _ hn
+    have hsz : (path.getD #[]).size = 0 := by
+      have := congrArg Array.size hempty
+      simpa using this
+    right
+    unfold VpscInv.Inv
+    simp only [St.incFlagNoSplit, St.flag]
+    refine InvC.drop_push (InvC.set_unsat hH v hv ?_) (Or.inr ?_)
+    · intro hineq
+      obtain ⟨s, hs, hneg⟩ := hviol hineq
+      cases path with
+      | none =>
+        exfalso
+        have hreach := hH.conn _ _ (hH.l_lt v hv) (hH.r_lt v hv) hsame
+        obtain ⟨W, hW, hnb⟩ := exists_nb_walk hreach
+        have := hsp.notfound rfl W hW hnb
+        subst this
+        exact hlr (walk_nil_eq hW)
+      | some cs =>
+        have hcs0 : cs.size = 0 := by simpa using hsz
+        obtain ⟨W, hW, _, _, _, hc2⟩ := hsp.found cs rfl
+        have hback : ∀ s ∈ W, s.2.1 = (st.cons[s.1]!).r ∧ s.2.2 = (st.cons[s.1]!).l := by
+          intro s hs
+          obtain ⟨hj, _, hends⟩ := walk_steps_ae hW s hs
+          rcases hends with ⟨h1, h2⟩ | ⟨h1, h2⟩
+          · exfalso
+            have hmem := hc2 s hs h1.symm h2.symm (hineq _ hj)
+            obtain ⟨i, hi, _⟩ := Array.mem_iff_getElem.1 hmem
+            omega
+          · exact ⟨h2.symm, h1.symm⟩
+        obtain ⟨p, hp, hw⟩ := backward_walk st.cons W _ _ hW hback
+        exact AdaptaVerif.Lemmas.VpscFlag.flag_walk_sound st v p hp hw (tightActive_of_inv hH)
+          (getElem!_mem' _ v hv) (viol_of_slack st v s hs hneg)
+    · rw [cons_set_get]; simp [hv]
+  · -- split on `sc`
+    rename_i sc x gap hmin
+    have hmem := argMinFirst_mem _ _ _ _ hmin
+    simp only [Array.mem_map, Prod.mk.injEq] at hmem
+    obtain ⟨ci, hci, rfl, _⟩ := hmem
+    cases path with
+    | none => simp at hci
+    | some cs =>
+      simp only [Option.getD_some] at hci
+      obtain ⟨W, hW, _, hnb, hc1, _⟩ := hsp.found cs rfl
+      obtain ⟨hstep, _⟩ := hc1 ci hci
+      obtain ⟨P, S, hPS⟩ := List.append_of_mem hstep
+      have hnd := Walk.nodup hforest hW hnb
+      subst hPS
+      obtain ⟨m, hP, hS⟩ := Walk.split hW
+      cases hS with
+      | cons hae hS' =>
+        have hPavoid : ∀ s ∈ P, s.1 ≠ ci := by
+          intro s hs heq
+          rw [List.map_append, List.map_cons, List.nodup_append] at hnd
+          exact hnd.2.2 _ (List.mem_map.2 ⟨s, hs, rfl⟩) _ (List.mem_cons_self) heq
+        have hSavoid : ∀ s ∈ S, s.1 ≠ ci := by
+          intro s hs heq
+          rw [List.map_append, List.map_cons, List.nodup_append, List.nodup_cons] at hnd
+          exact hnd.2.1.1 (by rw [← heq]; exact List.mem_map.2 ⟨s, hs, rfl⟩)
+        have side1 := (Walk.reachAvoid hP hPavoid).symm
+        have side2 := Walk.reachAvoid hS' hSavoid
+        have hlb : (st.vars[(st.cons[v]!).l]!).block = blk st.vars (st.cons[ci]!).l :=
+          hH.reach_blk (Walk.reach hP)
+        exact splitTail_J (st.note gap) v ci _ hlb hH hae.2.1 side1 side2
+
+
 end AdaptaVerif.Lemmas.VpscLoop
